@@ -116,17 +116,29 @@ def text_line(rng, extra=""):
     return " ".join(ws)
 
 
-def gaps(rng, b, garbage_family, blank="\n", allow_blank=True, rate=0.18):
-    """optional inert garbage (with blank lines between / after) at a gap"""
+def gaps(rng, b, garbage_family, blank="\n", allow_blank=True, rate=0.18, same_line=None):
+    """optional inert garbage (with blank lines between / after) at a gap.
+    same_line: the garbage that may share its line with what is printed next (a record or a
+    comment that the format's grammar recognises in the middle of a line): the last chunk is
+    then ended by blanks or a tab instead of a newline, and the junk region still ends exactly
+    where the next key / comment starts"""
+    b.same_line = False
     if rng.random() >= rate:
         b.layout.setdefault("garbage", []).append(0)
         return 0
     n = rng.choice([1, 1, 2, 3])
     b.layout.setdefault("garbage", []).append(n)
     for i in range(n):
+        if i == n - 1 and same_line and rng.random() < 0.45:
+            b.garbage(rng.choice(same_line), nl=rng.choice([" ", "\t", "  "]))
+            b.layout.setdefault("garbage_same_line", []).append(True)
+            b.same_line = True
+            return n
         b.garbage(rng.choice(garbage_family))
         if allow_blank and rng.random() < 0.35:
             b.emit(blank * rng.randint(1, 2))
+    if same_line:
+        b.layout.setdefault("garbage_same_line", []).append(False)
     return n
 
 
@@ -277,7 +289,10 @@ def gen_properties(rng, nrec, exotic=False):
         first = i == 0
         if not (first and pending is not None) and not (first and header == "license-attached"):
             b.emit("\n" * pick(rng, b, "blank_before", [0, 0, 1, 2]))
-            g = gaps(rng, b, P_GARBAGE)
+            cm = pick(rng, b, "comment", ["none", "none", "attached", "detached"])
+            # garbage may share a line with a following comment (# and ! start a comment
+            # anywhere), never with a record (it would be part of the key)
+            gaps(rng, b, P_GARBAGE, same_line=P_GARBAGE if cm != "none" else None)
         key = props_key(rng, used)
         toks = props_tokens(rng, pick(rng, b, "value_tokens", [0, 1, 2, 3, 5, 8]))
         for t in toks:
@@ -291,9 +306,12 @@ def gen_properties(rng, nrec, exotic=False):
         elif first and header == "license-attached":
             pass
         else:
-            cm = pick(rng, b, "comment", ["none", "none", "attached", "detached"])
             if cm != "none":
                 lines = comment_lines(rng, b, exotic)
+                if getattr(b, "same_line", False):
+                    # garbage in front of the comment on its line: with = or : in that line
+                    # the whole line would be a record
+                    lines[0] = lines[0].replace("=", "-").replace(":", "-")
                 style = pick(rng, b, "comment_style", ["#", "!", "# ", "mixed"])
                 rendered = [(rng.choice("#!") if style == "mixed" else style) + l for l in lines]
                 cval = "\n".join(l[1:] for l in rendered)
@@ -391,7 +409,8 @@ def gen_dtd(rng, nrec, exotic=False):
         direct = first and header in ("license-attached", "nolicense-attached", "license-late")
         if not direct:
             b.emit("\n" * pick(rng, b, "blank_before", [0, 0, 1, 2]))
-            gaps(rng, b, D_GARBAGE)
+            # a DTD is not line based: garbage, comments and entities may share a line
+            gaps(rng, b, D_GARBAGE, same_line=D_GARBAGE)
         while True:
             key = rng.choice(["", "", word(rng) + "."]) + "".join(
                 rng.choice(D_FIRST if j == 0 else D_REST) for j in range(rng.randint(1, 5)))
@@ -565,7 +584,12 @@ def gen_inc(rng, nrec, exotic=False):
                     k = rng.randint(1, 2)
                     b.expected.append(["J", b.n - 1, b.n + k])
                     b.emit("\n" * k)
-            gaps(rng, b, N_GARBAGE, allow_blank=filt)
+            choices = ["none", "none", "attached", "detached"] if filt else ["none", "none", "attached"]
+            cm = pick(rng, b, "comment", choices)
+            # #define is recognised anywhere in a line, a comment only at its start; garbage
+            # starting with # followed by blanks and text would be an instruction
+            gaps(rng, b, N_GARBAGE, allow_blank=filt,
+                 same_line=[g for g in N_GARBAGE if not g.startswith("#")] if cm == "none" else None)
         while True:
             key = rng.choice(["", "", word(rng) + "_"]) + "".join(
                 rng.choice("abK_09éあ") for _ in range(rng.randint(1, 5)))
@@ -576,8 +600,6 @@ def gen_inc(rng, nrec, exotic=False):
         raw = "".join(rng.choice(N_PLAIN) for _ in range(nt))
         pre = pending if first else None
         if not direct:
-            choices = ["none", "none", "attached", "detached"] if filt else ["none", "none", "attached"]
-            cm = pick(rng, b, "comment", choices)
             if cm != "none":
                 lines = comment_lines(rng, b, exotic)
                 rendered = ["# " + l for l in lines]
@@ -678,7 +700,8 @@ def gen_po(rng, nrec, exotic=False):
         direct = first and header in ("license-attached", "nolicense-attached", "license-late")
         if not direct:
             b.emit("\n" * pick(rng, b, "blank_before", [0, 0, 1, 2]))
-            gaps(rng, b, O_GARBAGE)
+            # msgctxt / msgid and # are recognised anywhere in a line
+            gaps(rng, b, O_GARBAGE, same_line=O_GARBAGE)
         while True:
             idt = po_tokens(rng, rng.choice([0, 1, 2, 3, 5]))
             if first and rng.random() < 0.3:
